@@ -6,6 +6,7 @@
   region characterised below; outside it they provably differ (witnesses = the listed known findings).
 -/
 import WowVerif.Lemmas.C01
+import WowVerif.Lemmas.C01Whole
 namespace Wv.C02
 open Wv Wv.Mpq
 
@@ -74,5 +75,49 @@ theorem key_differs_witness :
     them as they are — 5 bytes under key 1 -/
 theorem tail_differs_witness : encBytes codeConv [1, 2, 3, 4, 5] 1#32 ≠ encBytes publishedConv [1, 2, 3, 4, 5] 1#32 := by
   decide +kernel
+
+/-! ## whole archives across the two implementations (unencrypted files) -/
+
+/-- an unencrypted file is laid out the same way under every convention (the conventions only concern keys and the
+    cipher's tail) -/
+theorem layoutFile_conv_irrelevant (c1 c2 : Conv) (ssz : Nat) (f : FileSpec) (pos : Nat) (henc : f.enc = 0) :
+    layoutFile c1 ssz f pos = layoutFile c2 ssz f pos := by
+  unfold layoutFile
+  simp only [henc, show ¬ (0 ≥ 1) by omega, if_false, show ¬ ((0:Nat) = 2) by omega]
+
+theorem writeArchive_conv_irrelevant (c1 c2 : Conv) (version shift hashSize : Nat) (files : List FileSpec)
+    (henc : ∀ f ∈ files, f.enc = 0) :
+    writeArchive c1 version shift hashSize files = writeArchive c2 version shift hashSize files := by
+  have place : ∀ (fs : List FileSpec) (pos : Nat), (∀ f ∈ fs, f.enc = 0) →
+      writeArchiveCore.place c1 (512 * 2 ^ shift) fs pos = writeArchiveCore.place c2 (512 * 2 ^ shift) fs pos := by
+    intro fs
+    induction fs with
+    | nil => intro _ _; rfl
+    | cons f fs ih =>
+      intro pos h
+      simp only [writeArchiveCore.place]
+      rw [layoutFile_conv_irrelevant c1 c2 _ f pos (h f (by simp)), ih _ (fun g hg => h g (by simp [hg]))]
+  unfold writeArchive writeArchiveCore
+  simp only [place _ _ henc]
+
+/-- INTEROPERATION, BOTH DIRECTIONS, for archives of unencrypted files: what the code's writer lays out is read back
+    bit-identically by the independent reader (published conventions), and what the independent writer lays out is read
+    back by the code's reader — every layout, every stored form of every unit the codec table maps back; header V1/V2.
+    (For encrypted files the two differ exactly as `key_differs_witness` / `tail_differs_witness` show: findings D11a/b.) -/
+theorem interop_unencrypted (codec : Codec) (version shift hashSize : Nat) (files : List FileSpec)
+    (hv : version ≤ 1) (hshift : shift < 2 ^ 16) (henc : ∀ f ∈ files, f.enc = 0)
+    (hd : DistinctPairs (files.map (·.name))) (hle : files.length ≤ hashSize) (hhs : hashSize < 0xFFFFFFFE)
+    (hokP : ∀ f ∈ files, FileOK publishedConv codec (512 * 2 ^ shift) f ∧ f.data.length < 2 ^ 32)
+    (hokC : ∀ f ∈ files, FileOK codeConv codec (512 * 2 ^ shift) f ∧ f.data.length < 2 ^ 32)
+    (hsize : (writeArchive codeConv version shift hashSize files).length < 2 ^ 32)
+    (i : Nat) (hi : i < files.length) :
+    readFile publishedConv codec (writeArchive codeConv version shift hashSize files) files[i].name = .ok files[i].data ∧
+    readFile codeConv codec (writeArchive publishedConv version shift hashSize files) files[i].name = .ok files[i].data := by
+  have e := writeArchive_conv_irrelevant codeConv publishedConv version shift hashSize files henc
+  constructor
+  · rw [e]
+    exact Mpq.archive_roundtrip publishedConv codec version shift hashSize files hv hshift hd hle hhs hokP (by rw [← e]; exact hsize) i hi
+  · rw [← e]
+    exact Mpq.archive_roundtrip codeConv codec version shift hashSize files hv hshift hd hle hhs hokC hsize i hi
 
 end Wv.C02
